@@ -4,6 +4,8 @@ import asyncio
 import uuid
 from typing import TYPE_CHECKING, Callable, Dict, List, Optional, Type, Union
 
+from indi.routing import Device
+
 if TYPE_CHECKING:
     from typing_extensions import Protocol
 
@@ -53,6 +55,15 @@ class EventSource:
         callbacks = self._definition.event_handlers.get(event_type, {})
 
         for uid, cb in callbacks.items():
+            # handlers are registered on the class-level definition by every
+            # instance of a driver class: run only this instance's own
+            owner = getattr(cb, "__self__", None)
+            if (
+                isinstance(owner, Device)
+                and event.device is not None
+                and owner is not event.device
+            ):
+                continue
             if asyncio.iscoroutinefunction(cb):
                 asyncio.get_running_loop().create_task(cb(event))
             else:
